@@ -180,11 +180,9 @@ func (t StringCharTuple) Map(f func(Value) (Value, error)) (Tuple, error) { //no
 		return nil, err
 	}
 	if at, ok := at.(Number); ok {
-		if at, is := at.Int(); is {
-			if char, ok := char.(Number); ok {
-				if char, is := char.Int(); is {
-					return NewStringCharTuple(at, rune(char)), nil
-				}
+		if char, ok := char.(Number); ok {
+			if u, ok := newSugarTuple(at, StringCharAttr, char); ok {
+				return u, nil
 			}
 		}
 	}
